@@ -13,12 +13,12 @@ theorem leniency_pos : 0 < leniency := by decide
   | .returned _ _ _ => false
   | .finished _ _ => false
 
-/-- time at which the call left its select, unless it failed while sending -/
+/-- time at which the call returned (from its select, or with a send error) -/
 @[grind] def leftAt : CPC → Option Nat
   | .idle => none
   | .waiting _ _ => none
   | .returned t _ _ => some t
-  | .finished t how => if how = .sendError then none else some t
+  | .finished t _ => some t
 
 @[grind] def dpcOf : DPC → Option Nat
   | .recv => none
@@ -118,6 +118,7 @@ theorem invW_init (n slack : Nat) : InvW (init n slack) := by
 theorem invW_step {s s' : St} {l : Label} (hi : InvW s) (hg : Guard s l) (hp : PeerOK s l) (h : step? s l = some s') : InvW s' := by
   obtain ⟨a1, a2, a3, a4, a4b, a5, a6, a7⟩ := hi
   cases l <;> simp only [step?] at h <;> simp only [Guard, PeerOK] at hg hp
+  case cSendFail k => (repeat' split at h) <;> simp at h <;> subst h <;> (constructor <;> simp only [openBusy] at * <;> grind)
   case cSend k tmo opn =>
     split at h <;> simp at h; subst h
     next hc =>
